@@ -42,6 +42,15 @@ def run_compare(case, what=""):
     tm, tp = str(hf_m), str(hf_p)
     run_m = oracle.run_or_violation(tm, case, what="metrics-mode program" + what)
     exp = oracle.compare_outputs(case, run_m, what="metrics-mode program" + what)
+    # explicit output shapes: the final tensor's shape (tracked by the model through swizzles/merges) must be the extents
+    for name in S.outputs(spec):
+        t = run_m["ns"].get(S.tensor_var(spec, name))
+        if t is not None and getattr(t, "shape", None) is not None:
+            want = [case["extents"][r] for r in S.order_of(spec, name)]
+            if list(t.shape) != want:
+                raise Violation("metrics-mode program%s leaves %s with shape %r, but its ranks %r have extents %r"
+                                % (what, S.tensor_var(spec, name), list(t.shape), S.order_of(spec, name), want),
+                                sig="output-shape", details={"yaml": S.to_yaml(spec), "text": tm})
     cp = dict(case, spec=plain)
     run_p = oracle.run_or_violation(tp, cp, what="plain-mode program" + what)
     oracle.compare_outputs(cp, run_p, expected=exp, what="plain-mode program" + what)
@@ -51,6 +60,10 @@ def run_compare(case, what=""):
     cl = []
     if "leader-follower" in tm:
         cl.append("leader-follower")
+    nb = max([len(x.get("bindings", [])) for e in (spec["extra"].get("bindings") or {}).values() for x in e
+              if str(x.get("component", "")).startswith("Isect")] + [0])
+    if nb >= 2:
+        cl.append("intersector-ranks>=2")
     if differs:
         cl.append("loop-headers-differ")
     if swz_m:
